@@ -146,7 +146,9 @@ def run(chk, w):
             if not c.callee:
                 continue
             init_here = set()
-            creates = False
+            creates = c.callee == "pthread_create"
+            if c.callee in locks.INIT and c.args and c.args[0].get("k") == "global":
+                init_here.add(c.args[0]["name"])        # initialised in the start function itself (the init helper inlined)
             for x in reach_set(c):
                 fx = P.functions.get(x)
                 if not fx:
